@@ -23,6 +23,11 @@ from . import chain as CH   # noqa: E402
 CH.extend(CONTRACTS, CH.readers() + CH.plumbing() + CH.tables() + CH.wrapper())
 
 
+# the kernel function that emits the accepted rows next to their linear draws (nonlinear columns copied unchanged, row by row)
+from . import kernel as _KN   # noqa: E402
+CONTRACTS += [CH.clone(_KN.bgp, callees=_KN.CALLEES, lib=_KN.LIB, hooks=_KN.HOOKS, home="c01")]
+
+
 def EXTRA():
     # the public entry point hands its options (how many prior samples to use, how many posterior samples to keep, ...) to the function that
     # does the work, on both paths
